@@ -617,7 +617,7 @@ func init() {
 		// no fault other than fragmentation and progress-making expiries
 		o.Net = NetOpts{Pipe: o.Net.Pipe, ShortRead: 600, OneByteRead: 300, ReadExpiry: 150, ExpiryNeedsProgress: true}
 		o.Disk = DiskOpts{}
-		o.BreakW = 0
+		o.BreakW, o.PartW = 0, 0
 		o.NoTick = true
 		o.Budget = 1000
 		o.Publishers, o.Requesters = 0, 0
@@ -654,7 +654,26 @@ func init() {
 		f.O.Net.ShortWrite = 60
 		f.O.Budget += 4
 		f.O.Backoff = !f.W.Tape.Flip("nobackoff10", 250)
+		f.O.PartW = f.W.Tape.Draw("partw10", 3)
 	}, "write_break", "short_write_timeout", "backoff_checked")})
+	// partitions without reset, preferably inside large inbound packets:
+	// the client has only its PauseTimeout to notice
+	register("C10", Family{Name: "partition", Weight: 1, Run: flowFamily(func(f *Flow) {
+		o := &f.O
+		o.Inbound = 2 + f.W.Tape.Draw("nin10p", 6)
+		o.InQ = [3]int{2, 2, 2}
+		o.InSizeMix = [4]int{1, 3, 3, 0}
+		o.Publishers = f.W.Tape.Draw("npub10p", 2)
+		o.Requesters = f.W.Tape.Draw("nreq10p", 3)
+		o.PerReq = 1 + f.W.Tape.Draw("perreq10p", 3)
+		o.PartW = 2 + f.W.Tape.Draw("partw10p", 4)
+		o.BreakW = f.W.Tape.Draw("breakw10p", 2)
+		if o.PauseTimeout == 0 && !f.W.Tape.Flip("nopause10p", 200) {
+			o.PauseTimeout = 250 * time.Millisecond
+		}
+		o.Budget += 3
+		o.Backoff = !f.W.Tape.Flip("nobackoff10p", 250)
+	}, "partition_inside_packet", "backoff_checked")})
 	register("C16", Family{Name: "damage", Weight: 1, Run: flowFamily(func(f *Flow) {
 		restartTune(-1)(f)
 		o := &f.O
@@ -712,6 +731,17 @@ func init() {
 			o.InQ = [3]int{0, 1, 3}
 			o.FaultFreeAfterStop = false
 		}, "load_damaged")})
+	// record layout under concurrent savers: publishers at both levels and
+	// the read routine (PUBREL and inbound markers) write at the same time
+	register("C15", Family{Name: "layout", Weight: 1, Run: flowFamily(func(f *Flow) {
+		o := &f.O
+		o.Publishers = 2 + f.W.Tape.Draw("npub15l", 3)
+		o.PerPub = 2 + f.W.Tape.Draw("perpub15l", 4)
+		o.Q2 = 500
+		o.Inbound = 1 + f.W.Tape.Draw("nin15l", 4)
+		o.InQ = [3]int{0, 1, 3}
+		o.Budget = f.W.Tape.Draw("budget15l", 3)
+	}, "record_layout_checked")})
 	register("C13", Family{Name: "hostile", Weight: 1, Run: flowFamily(func(f *Flow) {
 		o := &f.O
 		o.HostileN = 1 + f.W.Tape.Draw("nhostile", 4)
